@@ -776,6 +776,14 @@ def regenerate_derivs(c):
             c.corr_break("dispatch extraction found less than expected: %s" % dinfo)
     except Exception as ex:
         c.corr_break("translator cannot extract the vary() dispatch table from particle.py: %s" % str(ex)[:200])
+    try:
+        rtext, rinfo = extract_c16.generate_rescale(REPO)
+        write_if_changed(os.path.join(LEAN, "RV", "Gen", "C16Rescale.lean"), rtext)
+        c.cov["rescale_ias15_table"] = rinfo
+        if rinfo["members"] < 13:
+            c.corr_break("rescale extraction found only %d per-particle IAS15 arrays in rebound.h (13 expected)" % rinfo["members"])
+    except Exception as ex:
+        c.corr_break("translator cannot extract the IAS15 array list of reb_simulation_rescale_var: %s" % str(ex)[:200])
     src = open(os.path.join(REPO, "src", "derivatives.c")).read()
     nsrc = len(re.findall(r"^struct reb_particle reb_particle_derivative_\w+\s*\(", src, flags=re.M))
     c.cov["translator"] = {"functions_in_source": nsrc, "functions_translated": len(fams), "statements_translated": total,
@@ -1985,6 +1993,7 @@ APPLICABLE_DIMENSIONS = [
     "callbacks: post_timestep_modifications (no-op)", "callbacks: heartbeat",
     "history: copy mid-run", "history: save/restore mid-run", "history: integrator switched mid-run", "history: rescale event",
     "history: rejected steps", "history: restore after rescale (lrescale persisted)",
+    "history: rescale event immediately followed by a rejected step",
     "frame: move_to_com mid-run", "frame: move_to_hel mid-run", "frame: rotate mid-run", "frame: convert_particle_units mid-run",
     "geometry: centre of mass offset and moving", "geometry: hyperbolic body",
     "megno: whfast", "megno: ias15", "megno: eos", "megno: after restore",
@@ -2447,6 +2456,89 @@ def finalize_dimensions(c):
         c.corr_break("dimension(s) not covered: " + "; ".join(missing))
 
 
+# ============================================================================ search: rescale event x rejected step right after
+def search_rescale_then_reject(c, rebound):
+    """IAS15 keeps backup predictor coefficients (br, er) that are only read when a step attempt is rejected.  A rescale at the end
+    of step s followed by a rejected attempt in step s+1 is forced deterministically: a pilot run finds the step with the rescale
+    event, the user then raises sim.dt by a large factor so that the next attempt is rejected.  Oracle: the same run with
+    lrescale = -1 (never rescaled) represents the same variation: exp(lrescale)*delta must agree to rounding."""
+    worst = 0.0
+    runs = {}
+    nconj = 0
+    ncases = 6 if c.thorough else 3
+    for case in range(ncases):
+        rng = c.rng.fork()
+        sy = gen_system(rebound, rng)
+        s_edit = [0, 2, 5, 9, 1, 3][case]            # number of ordinary steps before the variation is made large
+        factor = [8.0, 25.0, 4.0, 60.0, 12.0, 2.5][case]     # new sim.dt (time units; inner period 2 pi): far beyond what IAS15 accepts
+        seedv = rng.next()
+        twins = []
+        for lr0 in (0.0, -1.0):
+            sim = sy.build("ias15", None, {})
+            v = sim.add_variation()
+            v.lrescale = lr0
+            rr = SplitMix(seedv)
+            for i_ in range(3):
+                for comp in CART:
+                    setattr(v.particles[i_], comp, rr.normal())
+            twins.append((sim, v))
+        (sa, va), (sb, vb) = twins
+        for _ in range(s_edit):
+            sa.step(); sb.step()
+        big = 3e100
+        for sim, v in twins:                           # the user works with a large un-normalised variation from now on
+            for i_ in range(3):
+                for comp in CART:
+                    setattr(v.particles[i_], comp, getattr(v.particles[i_], comp) * big)
+        # pilot: step until the automatic twin rescales
+        rescaled_at = None
+        for k in range(50):
+            lr_before = va.lrescale
+            sa.step(); sb.step()
+            if va.lrescale != lr_before:
+                rescaled_at = s_edit + k + 1
+                break
+        info = {"rescale_at_step": rescaled_at, "dt_raised_to": factor}
+        if rescaled_at is None:
+            runs[str(case)] = info
+            continue
+        # raise dt right after the rescale: the next attempt is far too long and gets rejected
+        nrej = 0
+        for sim in (sa, sb):
+            sim.dt = factor
+        dtb = sa.dt
+        sa.step(); sb.step()
+        if abs(sa.dt_last_done) < abs(dtb) * (1 - 1e-12):
+            nrej += 1
+        for _ in range(30):
+            sa.step(); sb.step()
+        A, B = var_state(va, range(3)), var_state(vb, range(3))
+        lr = va.lrescale
+        sc = max(abs(x) for x in B) or 1.0
+        e = 0.0
+        for a_, b_ in zip(A, B):
+            try:
+                av = a_ * math.exp(lr / 2) * math.exp(lr / 2)
+            except OverflowError:
+                av = float("inf")
+            d_ = abs(av - b_) / sc
+            e = d_ if not d_ <= e else e
+        realsame = all(d2h(x) == d2h(y) for x, y in zip(state_of(sa, range(3)), state_of(sb, range(3))))
+        info.update({"rejected_attempt_in_next_step": bool(nrej), "rel": float("%.3g" % e), "lrescale": lr, "real_particles_bitwise_equal": realsame})
+        runs[str(case)] = info
+        c.count(("rescale-then-reject", case), nontrivial=bool(nrej))
+        if nrej:
+            nconj += 1
+            dim(c, "history: rescale event immediately followed by a rejected step")
+            worst = max(worst, e) if e == e else float("inf")
+            if not e <= 1e-9:
+                c.violation("rescale:then-rejected-step:ias15", "IAS15: a rescale event followed by a rejected step attempt corrupts the variational particles: "
+                            "exp(lrescale)*delta differs from the never-rescaled twin (lrescale=-1) by %.3g" % e,
+                            dict(G=sy.G, m0=sy.m0, bodies=sy.bodies, steps_before_large_variation=s_edit, rescale_at_step=rescaled_at, dt_raised_by=factor,
+                                 lrescale=lr, rel=e, variation_seed=seedv))
+    c.cov["rescale_then_reject"] = {"runs": runs, "conjunctions": nconj, "worst_rel": float("%.3g" % worst), "threshold": 1e-9}
+
+
 def run(c):
     if "--replay" in sys.argv:
         # runs are reproducible from (seed, tier): a replay re-runs the check exactly as it ran when the file was written
@@ -2500,6 +2592,7 @@ def run(c):
     run_phase(c, "shadow", lambda: search_shadow(c, rebound), 150 * (10 if c.thorough else 1))
     run_phase(c, "rescale-megno", lambda: search_rescale_megno(c, rebound), 60 * big)
     run_phase(c, "dimensions", lambda: search_dimensions(c, rebound), 150 * (8 if c.thorough else 1))
+    run_phase(c, "rescale-then-reject", lambda: search_rescale_then_reject(c, rebound), 60 * big)
     run_phase(c, "rejected-steps", lambda: search_rejected_steps(c, rebound), 90 * big)
     run_phase(c, "whfast-tangent", lambda: search_whfast_tangent(c, rebound), 90 * big)
     finalize_dimensions(c)
